@@ -9,3 +9,15 @@ class V3Sig(stubs.V2Sig):          # named like the v3 stub, but v2 signatures
 
 class V2Sig(stubs.V3Sig):          # named like the v2 stub, but v3 signatures
     pass
+
+
+def _make(base):
+    """A class factory: every class it returns has the same module and the same qualified name
+    (``_make.<locals>.FactorySim``), whatever its signatures are."""
+    class FactorySim(base):
+        pass
+    return FactorySim
+
+
+FactoryV2 = _make(stubs.V2Sig)     # v2 signatures
+FactoryV3 = _make(stubs.V3Sig)     # v3 signatures
